@@ -9,6 +9,7 @@ import (
 // PacketStore is a goroutine safe packet store.
 type PacketStore struct {
 	packets map[packet.ID]packet.Generic
+	order   []packet.ID
 	mutex   sync.RWMutex
 }
 
@@ -42,7 +43,13 @@ func (s *PacketStore) Save(pkt packet.Generic) {
 
 	id, ok := packet.GetID(pkt)
 	if ok {
+		// move id to the end of the list if it already exists
+		if _, exists := s.packets[id]; exists {
+			s.removeFromOrder(id)
+		}
+
 		s.packets[id] = pkt
+		s.order = append(s.order, id)
 	}
 }
 
@@ -61,6 +68,10 @@ func (s *PacketStore) Delete(id packet.ID) {
 	defer s.mutex.Unlock()
 
 	// delete packet
+	if _, exists := s.packets[id]; exists {
+		s.removeFromOrder(id)
+	}
+
 	delete(s.packets, id)
 }
 
@@ -69,10 +80,10 @@ func (s *PacketStore) All() []packet.Generic {
 	s.mutex.RLock()
 	defer s.mutex.RUnlock()
 
-	// collect packets
+	// collect packets in the order they have been saved
 	var all []packet.Generic
-	for _, pkt := range s.packets {
-		all = append(all, pkt)
+	for _, id := range s.order {
+		all = append(all, s.packets[id])
 	}
 
 	return all
@@ -85,4 +96,14 @@ func (s *PacketStore) Reset() {
 
 	// reset packets
 	s.packets = make(map[packet.ID]packet.Generic)
+	s.order = nil
+}
+
+func (s *PacketStore) removeFromOrder(id packet.ID) {
+	for i, other := range s.order {
+		if other == id {
+			s.order = append(s.order[:i], s.order[i+1:]...)
+			return
+		}
+	}
 }
